@@ -54,3 +54,49 @@ def rename(spec, rng):
     out['q0'], out['acc'], out['rej'], out['blank'] = qm[spec['q0']], qm[spec['acc']], qm[spec['rej']], blank
     rank = {'Q': {qm[q]: i for i, q in enumerate(spec['Q'])}, 'Sigma': {sm[a]: i for i, a in enumerate(spec['Gamma'])}}
     return out, rank
+
+
+def scanner_tm(rng):
+    """A read-only machine that only moves right (a finite automaton on a tape) and keeps working on the blank cells
+    after its input: 0-4 further steps on blanks before it accepts; some states have no move for some symbol at all."""
+    n = rng.randint(1, 3)
+    k = rng.randint(0, 4)
+    Sigma = list('ab'[:rng.randint(1, 2)])
+    Gamma = Sigma + ['_']
+    S = ['s%d' % i for i in range(n)]
+    E = ['e%d' % i for i in range(k)]
+    Q = S + E + ['ACC', 'REJ']
+    delta = []
+    for p in S:
+        for a in Sigma:
+            if rng.random() < 0.85:
+                delta.append([p, a, rng.choice(S), a, 'R'])
+        if rng.random() < 0.6:
+            delta.append([p, '_', E[0] if E else 'ACC', '_', 'R'])
+        elif rng.random() < 0.3:
+            delta.append([p, '_', p, '_', 'R'])         # works on the blanks for ever
+    for i, e in enumerate(E):
+        delta.append([e, '_', E[i + 1] if i + 1 < k else 'ACC', '_', 'R'])
+    return {'kind': 'tm', 'Q': Q, 'Sigma': Sigma, 'Gamma': Gamma, 'delta': delta, 'q0': S[0], 'acc': 'ACC', 'rej': 'REJ', 'blank': '_'}
+
+
+def slow_or_loop_tm(rng, budget=1000):
+    """Words of one length that behave very differently: after the first symbol the machine either idles for K steps
+    and then accepts (K a large fraction of the step budget), or runs to the right for ever, or rejects at once."""
+    frac = rng.choice([0.3, 0.52, 0.6, 0.8, 0.95, 0.99])
+    K = max(1, int(budget * frac) - 2)
+    Sigma = ['a', 'b']
+    Gamma = Sigma + ['_']
+    Q = ['i', 'run'] + ['c%d' % j for j in range(K)] + ['ACC', 'REJ']
+    roles = rng.choice([('slow', 'loop'), ('loop', 'slow'), ('slow', 'reject'), ('slow', 'slow')])
+    delta = []
+    for sym, role in zip(Sigma, roles):
+        if role == 'slow':
+            delta.append(['i', sym, 'c0', sym, 'R'])
+        elif role == 'loop':
+            delta.append(['i', sym, 'run', sym, 'R'])
+    for g in Gamma:
+        delta.append(['run', g, 'run', g, 'R'])
+        for j in range(K):
+            delta.append(['c%d' % j, g, 'c%d' % (j + 1) if j + 1 < K else 'ACC', g, 'R' if j % 2 == 0 else 'L'])
+    return {'kind': 'tm', 'Q': Q, 'Sigma': Sigma, 'Gamma': Gamma, 'delta': delta, 'q0': 'i', 'acc': 'ACC', 'rej': 'REJ', 'blank': '_'}
